@@ -21,7 +21,8 @@
 //	   a session whose pings are all answered at once must stay up.
 //	C. real pair (pair.go): frpc <-> fault relay <-> frps with 1 / 20 / 150 proxies under sequences of cuts,
 //	   stalls (both ends silent), refusals, listener outages and server restarts (in-process, and a SIGKILLed
-//	   child process; uses vnode): steady phases must see no re-login, every fault must heal (client status,
+//	   child process; uses vnode), and re-logins whose reply is lost (the login parked at the
+//	   server.registerControl.beforeStart gate while its connection is reset): steady phases must see no re-login, every fault must heal (client status,
 //	   server tables, end-to-end echo), the final ledger must show exactly one session owning exactly the
 //	   configured proxies.
 //
